@@ -324,7 +324,13 @@ impl CompressedUsedLeafsIndexes {
     ) -> Result<(), ()> {
         let total_tree_height: u32 = tree_heights.iter().sum::<u8>().into();
 
-        if self.count >= (2u64.pow(total_tree_height) - 1) {
+        // Index of the last one-time key; for a total height of 64 or more the 64 bit counter
+        // cannot reach the end of the key's lifetime before it is used up itself.
+        let last_index = 1u64
+            .checked_shl(total_tree_height)
+            .map_or(u64::MAX, |total| total - 1);
+
+        if self.count >= last_index {
             return Err(());
         }
 
